@@ -165,6 +165,58 @@ CLAIMS = {
          '<= 2 pre-emptions (quick 1); client-side TaskManager.cancel_tasks message '
          'construction and the tmgr-side components are outside.',
     design='4/C08'),
+ 'C12': dict(
+    text='Bounded model checking of the real client-side schedulers by symbolic '
+         'execution: a symbolic event sequence (submission of batches of named / unnamed '
+         'tasks, add / remove pilot commands incl. several pilots per command, pilot '
+         'state notifications, task state notifications) is applied to RoundRobin and '
+         'Backfilling through the real work() / control_cb() / _base_state_cb() / '
+         '_assign_pilot(); every forward is recorded with the pilot it names and that '
+         "pilot's role and state at that moment: exactly one forward per task, named -> "
+         'that pilot after it was added, unnamed -> a currently added pilot, waiting '
+         'otherwise, round-robin spread <= 1, backfilling window / high-water mark / '
+         'usage returning to zero.',
+    note='Trusted: CrossHair/z3 path exhaustion; session sandbox getters stubbed, locks '
+         'no-op. Bounds: 2 pilots, <= 3 tasks per batch, 3 events (thorough 4), tasks of '
+         '2 cores, pilots of 1..8 cores (concrete table: hwm uses float arithmetic).',
+    design='4/C12'),
+ 'C16': dict(
+    text='Bounded symbolic execution of the real forwarding closures created by '
+         'Session._crosswire_proxy()/crosswire_pubsub() for one client and 1..3 pilots '
+         'over an in-memory pubsub network (every delivery is a JSON round trip, as on '
+         'the wire): originating side, channel, forward flag (absent/False/True) and '
+         'origin marker (absent/own/other side/foreign) of up to two messages are solver '
+         'variables; per-side delivery counts are checked after the network has run to '
+         'quiescence under a hop budget; a second harness runs the real Agent/'
+         'ClientComponent.advance -> publish and injects the produced message.',
+    note='Trusted: CrossHair/z3 path exhaustion; ZMQ pubsub modelled as exactly-once '
+         'delivery per subscriber; proxy.py (the bridge processes themselves) and task '
+         'queues are outside.',
+    design='4/C16'),
+ 'C17': dict(
+    text='(R2) The sizing arithmetic of PMGRLaunchingComponent._prepare_pilot is read '
+         'from the current source and interpreted by a path-forking AST->z3 evaluator: '
+         'requested nodes/cores/GPUs/backup nodes, node size, SMT factor and numbers of '
+         'blocked cores/GPUs are z3 integers, / is real division, math.ceil a fresh '
+         'integer with its defining inequalities, the resource config a shared symbolic '
+         'record (two pilots prepared from one config object are covered).  For every '
+         'path the negated property (smallest number of whole nodes covering cores and '
+         'GPUs, plus backup nodes; job description and agent config agree) is given to '
+         'z3: unsat = holds for all values in the stated ranges.  Run fully symbolic and '
+         'once per shipped node shape; the encoding is validated against the sliced '
+         'source on concrete sizes.  (R1) all shipped configs x schemas are resolved '
+         'concretely through the real Session.get_resource_config and the factory '
+         'tables (finite enumeration, stated as such).',
+    note='Trusted: z3 4.x/5.x NIA/LRA verdicts (unknown is reported as inconclusive); '
+         'float division treated as real division (operands < 2^26: one rounding cannot '
+         'cross an integer boundary of such quotients - argued, not solver-checked); '
+         'statements the evaluator cannot interpret make their targets unknown and the '
+         'run fails if a needed output is lost; PilotDescription.verify() preconditions '
+         'assumed.',
+    design='4/C17',
+    engine='z3-ast',
+    technique='AST->SMT translation of the real function (z3), unsat verdict per path; '
+              'models replayed on the sliced source'),
 }
 
 NOT_YET = 'check not built yet in this session (see DESIGN.md section 4 for the plan)'
